@@ -36,7 +36,15 @@ CONSTANTS Period,               \* staking period (withdrawals take effect at it
           ExecBeforeSwitchBack, \* TRUE as coded: the block that makes a node switch back is executed while the lookup entries of
                                 \* the blocks to re-adopt are still deleted; FALSE (repaired) = pending transactions are found
                                 \* through the block's own ancestry
+          SwitchAt,             \* block in which the header's protocol version switches (0 = never)
+          RoundBack,            \* the parameters of round n are those of the version of header n - RoundBack (VersionForRound)
+          ParamsPerBlock,       \* TRUE as coded: the importing node resolves the parameters for every block it processes; FALSE = it
+                                \* keeps them across the blocks of one InsertChain call and refreshes them only when the HEADER
+                                \* version changes
           GenMode
+
+\* protocol parameters in force for round num: 1 before, 2 from SwitchAt + RoundBack on
+PV(num) == IF SwitchAt > 0 /\ num >= SwitchAt + RoundBack THEN 2 ELSE 1
 
 Accused == {"g2", "g3"}                     \* validators an evidence can name (g1 proposes)
 Tok0(v) == IF v = "g2" THEN 505 ELSE 300
@@ -51,8 +59,9 @@ VARIABLES sa, sb,     \* abstract state of the builder's chain A and of the impo
           ok,         \* the importer accepted every block so far
           look,       \* importing node: numbers of the canonical blocks whose transactions have lookup entries
           flips,      \* fork switches so far
+          held,       \* importing node: the parameters it holds in the current InsertChain batch (0 = a new batch starts)
           hist
-vars == <<sa, sb, n, evs, prog, phase, hdr, ok, look, flips, hist>>
+vars == <<sa, sb, n, evs, prog, phase, hdr, ok, look, flips, held, hist>>
 
 InitS == [tok |-> [v \in Accused |-> Tok0(v)], on |-> [v \in Accused |-> TRUE], expl |-> [v \in Accused |-> FALSE],
           pen |-> 0, fees |-> 0, pend |-> <<>>]
@@ -61,17 +70,21 @@ Tx(k, a, b, v, x) == [k |-> k, a |-> a, b |-> b, v |-> v, x |-> x, p |-> 1, f |-
 \* the abstract alphabet: a plain transfer, a refused transaction, withdrawals that leave g2 with a dust stake
 \* "widegas" is a transfer whose gas LIMIT is nearly the block's gas limit (gas-limit class "near"; a transfer's own limit
 \* is exact)
-Offers == { Tx("transfer", "u1", "u2", "g1", 5), Tx("badnonce", "u1", "u2", "g1", 1), Tx("widegas", "u2", "u1", "g1", 3),
+Offers == (IF SwitchAt > 0 THEN { Tx("create", "n1", "n1", "n1", 15) } ELSE {}) \cup
+          { Tx("transfer", "u1", "u2", "g1", 5), Tx("badnonce", "u1", "u2", "g1", 1), Tx("widegas", "u2", "u1", "g1", 3),
             Tx("withdraw", "g2", "u1", "g2", 470), Tx("withdraw", "g3", "u1", "g3", 100) }
 RefusedTx(t) == t.k = "badnonce"
 
 \* ---------------------------------------------------------------- the shared transition function
 \* a pending staking transaction is remembered by its hash only (staking record); num = the block that contains it
-ApplyTx(s, t, num) == CASE t.k \in {"transfer", "widegas"} -> [s EXCEPT !.fees = @ + 1]
-                        [] t.k = "withdraw" -> [s EXCEPT !.fees = @ + 1, !.pend = Append(@, [blk |-> num] @@ t)]
-                        [] OTHER -> s
-RECURSIVE ApplyTxs(_, _, _)
-ApplyTxs(s, q, num) == IF q = <<>> THEN s ELSE ApplyTxs(ApplyTx(s, Head(q), num), Tail(q), num)
+\* "create" stands for everything whose execution depends on the parameters in force (a validator creation costs more gas
+\* from version 5 on): pv = the parameters the executing node uses
+ApplyTx(s, t, num, pv) == CASE t.k \in {"transfer", "widegas"} -> [s EXCEPT !.fees = @ + 1]
+                            [] t.k = "create" -> [s EXCEPT !.fees = @ + pv]
+                            [] t.k = "withdraw" -> [s EXCEPT !.fees = @ + 1, !.pend = Append(@, [blk |-> num] @@ t)]
+                            [] OTHER -> s
+RECURSIVE ApplyTxs(_, _, _, _)
+ApplyTxs(s, q, num, pv) == IF q = <<>> THEN s ELSE ApplyTxs(ApplyTx(s, Head(q), num, pv), Tail(q), num, pv)
 
 \* processEvidences over a list, for parent height ph: result [s, confirmed, pending, seen]
 RECURSIVE Slash(_, _, _, _, _, _)
@@ -100,7 +113,7 @@ EndOfBlock(s, num, lk) == IF (num + 1) % Period = 0 THEN TakeEffect(s, s.pend, l
 \* ---------------------------------------------------------------- offering, building, importing
 OfferTx == /\ phase = "offer" /\ Len(prog.txs) < MaxTx
            /\ \E t \in Offers : prog' = [prog EXCEPT !.txs = Append(@, t)]
-           /\ UNCHANGED <<sa, sb, n, evs, phase, hdr, ok, look, flips, hist>>
+           /\ UNCHANGED <<sa, sb, n, evs, phase, hdr, ok, look, flips, held, hist>>
 
 \* an evidence reaches the proposer: about the parent round (d = 0) or about the round being built (d = 1, processed by
 \* the NEXT block)
@@ -108,19 +121,19 @@ OfferEv == /\ phase = "offer" /\ Len(prog.ev) < MaxEv
            /\ \E v \in Accused, d \in {0, 1} :
                 /\ prog' = [prog EXCEPT !.ev = Append(@, [v |-> v, d |-> d])]
                 /\ evs' = Append(evs, [v |-> v, round |-> n - 1 + d])
-           /\ UNCHANGED <<sa, sb, n, phase, hdr, ok, look, flips, hist>>
+           /\ UNCHANGED <<sa, sb, n, phase, hdr, ok, look, flips, held, hist>>
 
 Build ==
    /\ phase = "offer"
    /\ LET incl == SelectSeq(prog.txs, LAMBDA t : ~RefusedTx(t))       \* refused ones are reverted and skipped
-          s1   == ApplyTxs(sa, incl, n)
+          s1   == ApplyTxs(sa, incl, n, PV(n))                         \* the builder resolves the parameters per block
           r    == Slash(s1, evs, n - 1, <<>>, <<>>, {})                \* slashing(): the LOCAL list, parent height
           s2   == EndOfBlock(r.s, n, 1..n) IN                          \* the builder never left its chain
       /\ sa' = s2
       /\ evs' = r.pend
       /\ hdr' = [n |-> n, txs |-> incl, slash |-> r.conf, digest |-> s2]
    /\ phase' = "built"
-   /\ UNCHANGED <<sb, n, prog, ok, look, flips, hist>>
+   /\ UNCHANGED <<sb, n, prog, ok, look, flips, held, hist>>
 
 \* The importing node is shown a sibling block that replaces its last `back` blocks (reorg away: the lookup entries of the
 \* replaced blocks are deleted); importing the builder's block afterwards makes it switch back: reorg() makes the
@@ -130,17 +143,23 @@ Flip ==
    /\ phase = "built" /\ flips < MaxFlips /\ prog.rg = 0
    /\ \E back \in 1..2 : n - 1 - back >= 0 /\ prog' = [prog EXCEPT !.rg = back]
    /\ flips' = flips + 1
-   /\ UNCHANGED <<sa, sb, n, evs, phase, hdr, ok, look, hist>>
+   /\ UNCHANGED <<sa, sb, n, evs, phase, hdr, ok, look, held, hist>>
+
+\* the next block starts a new InsertChain call on the importing node
+NewBatch == /\ phase = "built" /\ held # 0 /\ held' = 0
+            /\ UNCHANGED <<sa, sb, n, evs, prog, phase, hdr, ok, look, flips, held, hist>>
 
 Import ==
    /\ phase = "built"
    /\ LET gone == IF prog.rg > 0 THEN (n - prog.rg)..(n - 1) ELSE {}
-          s1 == ApplyTxs(sb, hdr.txs, n)
+          pv == IF ParamsPerBlock \/ held = 0 \/ n = SwitchAt THEN PV(n) ELSE held
+          s1 == ApplyTxs(sb, hdr.txs, n, pv)
           r  == Slash(s1, hdr.slash, n - 1, <<>>, <<>>, {})            \* replaySlashing(): header.SlashData, parent height
           s2 == EndOfBlock(r.s, n, IF ExecBeforeSwitchBack THEN look \ gone ELSE look) IN
       /\ sb' = s2
       /\ ok' = (ok /\ s2 = hdr.digest)                                 \* ValidateState
       /\ look' = ((look \ gone) \cup (IF ReorgRewritesLookups THEN gone ELSE {})) \cup {n}
+      /\ held' = pv
    /\ hist' = Append(hist, [cb |-> "g1", txs |-> prog.txs, ev |-> prog.ev, rg |-> prog.rg])
    /\ prog' = [txs |-> <<>>, ev |-> <<>>, rg |-> 0]
    /\ UNCHANGED flips
@@ -149,8 +168,8 @@ Import ==
    /\ UNCHANGED <<sa, evs, hdr>>
 
 Init == /\ sa = InitS /\ sb = InitS /\ n = 1 /\ evs = <<>> /\ prog = [txs |-> <<>>, ev |-> <<>>, rg |-> 0] /\ phase = "offer"
-        /\ hdr = [n |-> 0, txs |-> <<>>, slash |-> <<>>, digest |-> InitS] /\ ok = TRUE /\ look = {} /\ flips = 0 /\ hist = <<>>
-Next == OfferTx \/ OfferEv \/ Build \/ Flip \/ Import
+        /\ hdr = [n |-> 0, txs |-> <<>>, slash |-> <<>>, digest |-> InitS] /\ ok = TRUE /\ look = {} /\ flips = 0 /\ held = 0 /\ hist = <<>>
+Next == OfferTx \/ OfferEv \/ Build \/ Flip \/ NewBatch \/ Import
 Spec == Init /\ [][Next]_vars
 
 \* ---------------------------------------------------------------- property layer
@@ -161,5 +180,5 @@ BuilderAccepted == ok \/ Cex("BuilderAccepted")
 SameState == (phase \in {"offer", "done"} /\ ok) => sa = sb
 
 Leaf == (GenMode = "leaf" /\ phase = "done") => PrintT("@@J " \o ToJson([kind |-> "B", h |-> hist]))
-View == <<sa, sb, n, evs, prog, phase, hdr, ok, look, flips>>
+View == <<sa, sb, n, evs, prog, phase, hdr, ok, look, flips, held>>
 =============================================================================
